@@ -180,6 +180,11 @@ def scenario(pk, params, inp):
         return out
     if kind == "meta":
         vals = _draw(inp, 1, n)
+        # ANOTHER meta-game of the same size is queried first in the same process (state keyed by the size alone must not leak)
+        dfull = _full(pk, n, [inp.const(F.popcount(S) ** 2 + (S % 2)) for S in range(2 ** n)])
+        dmg = pk.meta_game.MetaGame(dfull, pk.game.IncompleteCooperativeGame(n, comp), gapf)
+        for mid in (0, 1, 2 ** len(F.extras(n)) - 1):
+            dmg.get_value(C(mid))
         full = _full(pk, n, vals)
         inc = pk.game.IncompleteCooperativeGame(n, comp)
         mg = pk.meta_game.MetaGame(full, inc, gapf)
